@@ -2,6 +2,7 @@ package main
 
 import (
 	"fmt"
+	"runtime/pprof"
 	"os"
 	"strconv"
 	"strings"
@@ -89,6 +90,14 @@ func main() {
 		fmt.Printf("paths=%d aborted=%d obligations=%d discharged=%d violations=%d reach=%v\n", paths, aborted, obl, dis, viol, reach)
 		fmt.Printf("solver: %+v instrs=%d axioms=%d wall=%.1fs\n", sol.Stats, ex.instrs, ex.axioms, time.Since(t0).Seconds())
 	case "check":
+		if pf := os.Getenv("QSYM_PROF"); pf != "" {
+			f, _ := os.Create(pf)
+			pprof.StartCPUProfile(f)
+			code := runCheck(os.Args[2:])
+			pprof.StopCPUProfile()
+			f.Close()
+			os.Exit(code)
+		}
 		os.Exit(runCheck(os.Args[2:]))
 	default:
 		fmt.Fprintln(os.Stderr, "unknown command")
